@@ -49,6 +49,8 @@ pub enum Kind {
     Reclaim,
     /// C09 (C02): concurrent writers of one key under a monotone validator (new.tag >= prev.tag)
     Validated,
+    /// C15 (C17, C19): lookup batching and accounting under concurrent readers and a live worker
+    Lookups,
 }
 
 #[derive(Clone, Debug, PartialEq, Eq, Serialize, Deserialize, Hash)]
@@ -75,6 +77,8 @@ pub enum SOp {
     Remove { k: u32 },
     Get { k: u32 },
     GetMut { k: u32 },
+    /// look up, keep the reference while the global virtual clock advances by ms, read its ttl
+    GetHold { k: u32, ms: u32 },
     Wait,
     Clear,
     Close,
@@ -176,6 +180,7 @@ pub trait Api: Send + Sync {
     fn remove(&self, k: K) -> Result<(), String>;
     fn get(&self, k: K) -> Option<Val>;
     fn get_mut(&self, k: K) -> Option<Val>;
+    fn get_hold(&self, k: K, ms: u32) -> Option<(Val, Duration, Duration)>;
     fn wait(&self) -> Result<(), String>;
     fn clear(&self) -> Result<(), String>;
     fn close(&self) -> Result<(), String>;
@@ -184,6 +189,7 @@ pub trait Api: Send + Sync {
     fn len(&self) -> usize;
     fn snapshot(&self) -> stretto::verif::Snapshot<Val>;
     fn metrics(&self) -> Option<crate::sut::MetricsView>;
+    fn estimate(&self, index: u64) -> i64;
     fn dup(&self) -> Box<dyn Api>;
 }
 
@@ -209,6 +215,13 @@ impl Api for SyncApi {
     fn get_mut(&self, k: K) -> Option<Val> {
         self.0.get_mut(&k).map(|r| *r.value())
     }
+    fn get_hold(&self, k: K, ms: u32) -> Option<(Val, Duration, Duration)> {
+        self.0.get(&k).map(|r| {
+            let t1 = r.ttl();
+            clock::advance_global(ms as i64 * 1_000_000);
+            (*r.value(), t1, r.ttl())
+        })
+    }
     fn wait(&self) -> Result<(), String> {
         es(self.0.wait())
     }
@@ -232,6 +245,9 @@ impl Api for SyncApi {
     }
     fn metrics(&self) -> Option<crate::sut::MetricsView> {
         crate::sut::metrics_view_pub(&self.0.metrics)
+    }
+    fn estimate(&self, index: u64) -> i64 {
+        self.0.verif_estimate(index)
     }
     fn dup(&self) -> Box<dyn Api> {
         Box::new(SyncApi(self.0.clone()))
@@ -260,6 +276,13 @@ impl Api for AsyncApi {
     fn get_mut(&self, k: K) -> Option<Val> {
         bo(self.0.get_mut(&k)).map(|r| *r.value())
     }
+    fn get_hold(&self, k: K, ms: u32) -> Option<(Val, Duration, Duration)> {
+        bo(self.0.get(&k)).map(|r| {
+            let t1 = r.ttl();
+            clock::advance_global(ms as i64 * 1_000_000);
+            (*r.value(), t1, r.ttl())
+        })
+    }
     fn wait(&self) -> Result<(), String> {
         es(bo(self.0.wait()))
     }
@@ -283,6 +306,9 @@ impl Api for AsyncApi {
     }
     fn metrics(&self) -> Option<crate::sut::MetricsView> {
         crate::sut::metrics_view_pub(&self.0.metrics)
+    }
+    fn estimate(&self, index: u64) -> i64 {
+        self.0.verif_estimate(index)
     }
     fn dup(&self) -> Box<dyn Api> {
         Box::new(AsyncApi(self.0.clone()))
@@ -500,7 +526,9 @@ fn watch<R: Send>(progress: &Arc<Progress>, grace: Duration, mk_hang: &(dyn Fn(&
         let mut last = progress.total();
         let mut last_change = Instant::now();
         loop {
-            if done.load(Ordering::SeqCst) {
+            // finished normally, or the body panicked (a client thread panicked): join below
+            // re-raises it and the caller reports the panic
+            if done.load(Ordering::SeqCst) || h.is_finished() {
                 break;
             }
             std::thread::sleep(Duration::from_millis(2));
@@ -549,7 +577,10 @@ fn watch<R: Send>(progress: &Arc<Progress>, grace: Duration, mk_hang: &(dyn Fn(&
                 }
             }
         }
-        h.join().unwrap()
+        match h.join() {
+            Ok(r) => r,
+            Err(p) => std::panic::resume_unwind(p),
+        }
     })
 }
 
@@ -615,7 +646,7 @@ pub fn run_stress_case(case: &StressCase) -> SResult {
     match r {
         Ok(mut res) => {
             if res.status == "ok" && !panics.is_empty() {
-                let in_harness = panics.iter().all(|p| p.contains(" at src/"));
+                let in_harness = panics.iter().filter(|p| !p.contains("a scoped thread panicked")).all(|p| p.contains(" at src/"));
                 if in_harness {
                     res = SResult { status: "harness".into(), msg: panics.join(" | "), ..Default::default() };
                 } else {
@@ -625,7 +656,9 @@ pub fn run_stress_case(case: &StressCase) -> SResult {
             res
         }
         Err(_) => {
-            let in_harness = panics.iter().any(|p| p.contains(" at src/"));
+            // the re-raised "a scoped thread panicked" is only the messenger
+            let real: Vec<&String> = panics.iter().filter(|p| !p.contains("a scoped thread panicked")).collect();
+            let in_harness = real.is_empty() || real.iter().all(|p| p.contains(" at src/"));
             if in_harness {
                 SResult { status: "harness".into(), msg: panics.join(" | "), ..Default::default() }
             } else {
@@ -689,6 +722,9 @@ fn run_inner(case: &StressCase) -> SResult {
     }
     if case.kind == Kind::Validated {
         return run_validated(case, api);
+    }
+    if case.kind == Kind::Lookups {
+        return run_lookups(case, api);
     }
     let n = case.threads.len();
     let mut progress_init = Progress::new(n + 1);
@@ -774,7 +810,7 @@ fn run_inner(case: &StressCase) -> SResult {
             let c = &case.cfg;
             res.nontrivial = c.num_counters < 8 || !c.num_counters.is_power_of_two() || c.buffer_size <= 2 || c.buffer_items <= 1 || c.max_cost <= 1;
         }
-        Kind::Invariants | Kind::Reclaim | Kind::Validated => {}
+        Kind::Invariants | Kind::Reclaim | Kind::Validated | Kind::Lookups => {}
     }
     // ---- post-run checks
     let post = progress.clone();
@@ -1143,6 +1179,20 @@ fn client(t: usize, kind: Kind, api: Box<dyn Api>, script: &[SOp], sh: &Shared, 
                                 format!("thread {}: lookup of key {} (began at logical time {}) returned {} whose insert had returned at {} - before a clear() that began at {} and returned at {}", t, k, gstart, v, tr, cs, ce),
                             ));
                         }
+                    }
+                }
+            }
+            SOp::GetHold { k, ms } => {
+                progress.enter(t, 4);
+                let r = a.get_hold(*k as u64, *ms);
+                progress.leave(t);
+                sh.lookups.fetch_add(1, Ordering::SeqCst);
+                if let Some((v, t1, t2)) = r {
+                    if v.key != *k {
+                        sh.violations.lock().push(SResult::violation(&["C02"], "lookup_other_key", format!("thread {}: lookup of key {} returned {}", t, k, v)));
+                    }
+                    if t2 > t1 {
+                        sh.violations.lock().push(SResult::violation(&["C03"], "ttl_increased", format!("thread {}: ValueRef::ttl() of key {} went from {:?} to {:?} while the reference was held", t, k, t1, t2)));
                     }
                 }
             }
@@ -1553,6 +1603,7 @@ pub fn stress_strategy(kind: Kind, async_pct: u32) -> BoxedStrategy<StressCase> 
                     10 => (0u32..40, prop_oneof![Just(1i64), Just(0i64), Just(unit), Just((unit / 3).max(1)), Just(neg), Just(neg)], prop_oneof![3 => Just(0u32), 2 => 1u32..1500]).prop_map(|(k, cost, ttl_ms)| SOp::Insert { k, cost, ttl_ms }),
                     10 => (0u32..40).prop_map(|k| SOp::Get { k }),
                     2 => (0u32..40).prop_map(|k| SOp::GetMut { k }),
+                    2 => (0u32..40, prop_oneof![Just(0u32), Just(1u32), 1u32..3000]).prop_map(|(k, ms)| SOp::GetHold { k, ms }),
                     3 => (0u32..40).prop_map(|k| SOp::Remove { k }),
                     2 => (0u32..40, 1i64..3).prop_map(|(k, cost)| SOp::Iip { k, cost }),
                     2 => (100u32..2500).prop_map(SOp::Advance),
@@ -1580,19 +1631,18 @@ pub fn stress_strategy(kind: Kind, async_pct: u32) -> BoxedStrategy<StressCase> 
             .boxed(),
         Kind::Validated => (
             exec_strategy(async_pct),
-            2usize..=5,
-            1u32..=3,
+            3usize..=8,
+            prop_oneof![3 => Just(1u32), 1 => Just(2u32)],
             any::<u64>(),
         )
             .prop_flat_map(move |(exec, nt, nkeys, perturb)| {
                 let op = prop_oneof![
                     8 => (0..nkeys, 1i64..2000).prop_map(|(k, cost)| SOp::Insert { k, cost, ttl_ms: 0 }),
                     3 => (0..nkeys, 1i64..2000).prop_map(|(k, cost)| SOp::Iip { k, cost }),
-                    5 => (0..nkeys).prop_map(|k| SOp::Get { k }),
-                    1 => (0u16..500).prop_map(SOp::Spin),
+                    4 => (0..nkeys).prop_map(|k| SOp::Get { k }),
                 ];
                 // every key is made resident first (one writer, then a barrier through wait())
-                proptest::collection::vec(proptest::collection::vec(op, 20..120), nt..=nt).prop_map(move |mut threads| {
+                proptest::collection::vec(proptest::collection::vec(op, 100..400), nt..=nt).prop_map(move |mut threads| {
                     let mut warm: Vec<SOp> = (0..nkeys).map(|k| SOp::Insert { k, cost: 0, ttl_ms: 0 }).collect();
                     warm.push(SOp::Wait);
                     for t in threads.iter_mut() {
@@ -1604,6 +1654,43 @@ pub fn stress_strategy(kind: Kind, async_pct: u32) -> BoxedStrategy<StressCase> 
                         kind,
                         exec,
                         cfg: SCfg { num_counters: 100, max_cost: 1 << 40, buffer_size: 4096, buffer_items: 8, metrics: false, ignore_internal_cost: true, cleanup_ms: 500, validator: Validator::TagGe },
+                        threads,
+                        perturb,
+                        drop_only: false,
+                    }
+                })
+            })
+            .boxed(),
+        Kind::Lookups => (
+            exec_strategy(async_pct),
+            proptest::sample::select(vec![1usize, 2, 3, 8, 64]),
+            2usize..=6,
+            any::<u64>(),
+        )
+            .prop_flat_map(move |(exec, bi, nt, perturb)| {
+                let reader = proptest::collection::vec(
+                    prop_oneof![
+                        12 => (0u32..40).prop_map(|k| SOp::Get { k }),
+                        1 => (0u32..40).prop_map(|k| SOp::GetMut { k }),
+                    ],
+                    40..200,
+                );
+                let disturber = proptest::collection::vec(
+                    prop_oneof![
+                        3 => (100u32..160, 1i64..5).prop_map(|(k, cost)| SOp::Insert { k, cost, ttl_ms: 0 }),
+                        3 => (50i64..60).prop_map(|m| SOp::UpdateMax { m }),
+                        1 => (0u16..300).prop_map(SOp::Spin),
+                    ],
+                    40..300,
+                );
+                (proptest::collection::vec(reader, nt..=nt), proptest::collection::vec(disturber, 1..=2)).prop_map(move |(mut threads, d)| {
+                    threads.extend(d);
+                    StressCase {
+                        kind,
+                        exec,
+                        // tight capacity for the disturbers' keys: every insert needs an admission
+                        // decision under the policy lock; aging window far above the lookup count
+                        cfg: SCfg { num_counters: 65536, max_cost: 55, buffer_size: 64, buffer_items: bi, metrics: true, ignore_internal_cost: true, cleanup_ms: 500, validator: Validator::Always },
                         threads,
                         perturb,
                         drop_only: false,
@@ -1948,5 +2035,137 @@ fn run_validated(case: &StressCase, api: Box<dyn Api>) -> SResult {
     }
     let mut r = SResult::ok();
     r.nontrivial = n >= 2;
+    r
+}
+
+/// Lookups kind: 2-6 threads look up 40 keys (few times each, so estimates stay below saturation),
+/// other threads keep the policy lock busy (inserts that need admission decisions, max_cost
+/// updates). No clear, no close, aging window far larger than the number of lookups.
+/// At quiescence: every flushed batch is accounted exactly once (kept + dropped ==
+/// b * floor(lookups / b)), hits + misses == lookups, and - if nothing was dropped - the estimates
+/// reflect the kept lookups (at most b-1 lookups may still sit in the ring).
+fn run_lookups(case: &StressCase, api: Box<dyn Api>) -> SResult {
+    let n = case.threads.len();
+    let progress = Progress::new(n + 1);
+    let barrier = Barrier::new(n);
+    let counts: Mutex<HashMap<u32, u64>> = Mutex::new(HashMap::new());
+    let total = AtomicU64::new(0);
+    let api: Arc<Box<dyn Api>> = Arc::new(api);
+    let serial = AtomicU32::new(0);
+    let mk_hang = |ev: &str, _b: &[usize]| -> SResult {
+        let mut r = SResult::violation(&["C12"], "call_blocked", format!("HANG {}", ev));
+        r.status = "hang".into();
+        r
+    };
+    watch(&progress, Duration::from_millis(1500), &mk_hang, || {
+        std::thread::scope(|s| {
+            for (t, script) in case.threads.iter().enumerate() {
+                let api = api.dup();
+                let (counts, total, barrier, progress, serial) = (&counts, &total, &barrier, &progress, &serial);
+                s.spawn(move || {
+                    progress.register(t);
+                    barrier.wait();
+                    let mut local: HashMap<u32, u64> = HashMap::new();
+                    for op in script {
+                        match op {
+                            SOp::Get { k } => {
+                                progress.enter(t, 4);
+                                let _ = api.get(*k as u64);
+                                progress.leave(t);
+                                *local.entry(*k).or_insert(0) += 1;
+                            }
+                            SOp::GetMut { k } => {
+                                progress.enter(t, 5);
+                                let _ = api.get_mut(*k as u64);
+                                progress.leave(t);
+                                *local.entry(*k).or_insert(0) += 1;
+                            }
+                            SOp::Insert { k, cost, .. } => {
+                                let sn = serial.fetch_add(1, Ordering::SeqCst) + 1;
+                                progress.enter(t, 1);
+                                let _ = api.insert(*k as u64, Val { key: *k, serial: sn, tag: 1 }, *cost, Duration::ZERO);
+                                progress.leave(t);
+                            }
+                            SOp::UpdateMax { m } => {
+                                api.update_max_cost(*m);
+                                let _ = api.max_cost();
+                            }
+                            SOp::Spin(c) => {
+                                for _ in 0..*c {
+                                    std::hint::spin_loop();
+                                }
+                            }
+                            _ => {}
+                        }
+                    }
+                    let mut g = counts.lock();
+                    for (k, c) in local {
+                        *g.entry(k).or_insert(0) += c;
+                        total.fetch_add(c, Ordering::SeqCst);
+                    }
+                    progress.finish(t);
+                });
+            }
+        })
+    });
+    let total = total.load(Ordering::SeqCst);
+    let b = case.cfg.buffer_items.max(1) as u64;
+    let want_flushed = b * (total / b);
+    // let the policy worker drain: poll until the accounting and the estimates settle
+    let counts = counts.lock().clone();
+    let deadline = Instant::now() + Duration::from_millis(2500);
+    let mut last = String::new();
+    loop {
+        let mv = match api.metrics() {
+            Some(m) => m,
+            None => return SResult::ok(),
+        };
+        let mut problem: Option<(&'static str, &'static [&'static str], String)> = None;
+        if mv.hits + mv.misses != total {
+            problem = Some(("metrics_lookups", &["C17"], format!("hits {} + misses {} != lookups made {}", mv.hits, mv.misses, total)));
+        } else if mv.gets_kept + mv.gets_dropped != want_flushed {
+            problem = Some((
+                "ring_accounting",
+                &["C15", "C17"],
+                format!("{} lookups with buffer_items {}: kept {} + dropped {} != {} (every flushed batch accounted exactly once)", total, case.cfg.buffer_items, mv.gets_kept, mv.gets_dropped, want_flushed),
+            ));
+        } else if mv.gets_dropped == 0 {
+            let mut deficit = 0i64;
+            let mut worst = (0u32, 0u64, 0i64);
+            for (k, c) in counts.iter() {
+                let est = api.estimate(*k as u64);
+                let want = (*c).min(16) as i64;
+                if est < want {
+                    deficit += want - est;
+                    if want - est > worst.1 as i64 - worst.2 {
+                        worst = (*k, *c, est);
+                    }
+                }
+            }
+            if deficit > (b as i64 - 1) {
+                problem = Some((
+                    "estimate_ge_recorded",
+                    &["C15"],
+                    format!("{} lookups, all batches kept (none dropped), buffer_items {}: the estimates fall short of the recorded lookups by {} in total (at most {} may still sit in the ring), e.g. key {} looked up {} times estimates {}", total, case.cfg.buffer_items, deficit, b - 1, worst.0, worst.1, worst.2),
+                ));
+            }
+        }
+        match problem {
+            None => break,
+            Some((pred, props, msg)) => {
+                last = msg.clone();
+                if Instant::now() > deadline {
+                    let _ = last;
+                    return SResult::violation(props, pred, msg);
+                }
+                std::thread::sleep(Duration::from_millis(5));
+            }
+        }
+    }
+    let mut r = SResult::ok();
+    r.nontrivial = n >= 2 && total >= b;
+    if api.metrics().map(|m| m.gets_dropped > 0).unwrap_or(false) {
+        r.classes.push("batch_dropped".into());
+    }
     r
 }
